@@ -21,6 +21,20 @@ class C10(c01.C01):
                                   ("xml", {"force_types": False}), ("xml", {"force_types": True})]
 
     def judge(self, doc, out, hist, where, opts=None, extra=None):
+        """emit and read independently; then edit the document in place (C01's edit: a value added under an existing
+        record, `set_time` on an activity, a record added) and emit again - the second texts are those of the edited document"""
+        before = sum(v[0] for v in out.viol.values())
+        self.judge_once(doc, out, hist, where, opts, extra)
+        if sum(v[0] for v in out.viol.values()) != before:
+            return  # already reported as it stands
+        try:
+            c01.edit_in_place(doc)
+        except Exception:
+            out.outcomes["edit-in-place-refused"] += 1
+            return
+        self.judge_once(doc, out, hist, where + "+after-in-place-edit", opts, extra, suffix="-after-in-place-edit")
+
+    def judge_once(self, doc, out, hist, where, opts=None, extra=None, suffix=""):
         want = observe.dobs(doc)
         observe.touch(doc)
         xf = c02.xml_filter(doc)
@@ -36,13 +50,13 @@ class C10(c01.C01):
                 continue
             got, problems = (json_reader.read if fmt == "json" else xml_reader.read)(text)
             if problems:
-                out.violation("%s-structural-rule" % fmt, _kind(problems[0]) + observe.input_class(doc),
+                out.violation("%s-structural-rule%s" % (fmt, suffix), _kind(problems[0]) + observe.input_class(doc),
                               {"problems": problems[:5], "where": where, "options": o, "text": text[:2500]}, hist, extra)
                 continue
             if got == want:
-                out.outcomes["%s-agree" % fmt] += 1
+                out.outcomes["%s-agree%s" % (fmt, suffix)] += 1
             else:
-                out.violation("%s-independent-reader-differs" % fmt, ",".join(observe.classify_diff(want, got)) + observe.input_class(doc),
+                out.violation("%s-independent-reader-differs%s" % (fmt, suffix), ",".join(observe.classify_diff(want, got)) + observe.input_class(doc),
                               {"diff": observe.diff_obs(want, got), "where": where, "options": o, "text": text[:2500]},
                               hist, extra)
 
